@@ -3,10 +3,9 @@ from vlib import conc
 
 RULES = ['regSet.installed', 'regSet.inline', 'fire', 'retire', 'loadFlag.notdone', 'loadFlag.done', 'xchgFlag.win',
          'xchgFlag.lose', 'setOut', 'dec.notlast', 'dec.last', 'dec.notlast.store', 'dec.last.store', 'dtorRel', 'dtorSet',
-         'crash', 'obs.out', 'obs.invalid']
-NOT_EXHIBITABLE = ['loadFlag.stale', 'dtorThrow']
-
-# the open finding D2 is listed in /verif/known_findings.json (property C09)
+         'obs.out', 'obs.invalid']
+# 'crash': proved unreachable (Props/C09.lean no_crash) since the D2 fix (/repo 2b9a400); the harness' crash monitor stays armed
+NOT_EXHIBITABLE = ['loadFlag.stale', 'dtorThrow', 'crash']
 
 
 def run(res, tier):
